@@ -436,3 +436,87 @@ Fixpoint outs_from (s : state) (ops : list op) : list out :=
   | [] => []
   | o :: r => let '(s', x) := step s o in x :: outs_from s' r
   end.
+
+(* ====================================================================== *)
+(* Ingest-side routing.  The writer keeps one open segstore per STREAM ID
+   (segwriter.getOrCreateSegStore / allSegStores: looked up by stream id alone; table and org of an
+   existing segstore are never re-checked), and
+     utils.CreateStreamId(index, org) = fmt.Sprintf("%d-%v-%v", rand.Intn(MAX_SHARDS = 1), org, xxhash(index)).
+   An event therefore lands in the (org, table) of whichever segstore owns its stream id.
+   [step] above stores an ingested event directly under (X, t); [rstep] below routes it through the stream
+   id as the code does.  SigP.TenantProofs proves that the two coincide because the stream id is injective
+   on (org, index) (routing_is_direct), and refutes it for a separator-less concatenation. *)
+
+(* decimal printing (%v of an integer) *)
+Fixpoint dec_rev (fuel : nat) (n : N) : list N :=     (* least significant digit first *)
+  match fuel with
+  | O => []
+  | S f => if n =? 0 then [] else (48 + n mod 10) :: dec_rev f (n / 10)
+  end.
+Definition dec (n : N) : list N :=
+  if n =? 0 then [48] else rev (dec_rev (S (N.to_nat (N.log2 n))) n).
+
+Definition c_dash : N := 45.
+
+(* the full string of the real stream id, for a hash function h of the index name (shard 0) *)
+Definition sid_str (h : name -> N) (X : N) (t : name) : list N :=
+  [48; c_dash] ++ dec X ++ c_dash :: dec (h t).
+
+(* the model's segstore key: "<org>-<index>", the index name standing for its hash
+   (assumption: no xxhash collision among the index names in use) *)
+Definition stream_key (X : N) (t : name) : name := dec X ++ c_dash :: t.
+
+(* documentation of a seeded regression (seeded/C13c): org and index concatenated without separator *)
+Definition concat_key (X : N) (t : name) : name := dec X ++ t.
+
+Definition stores := list (name * (N * name)).   (* stream key -> (org, table) of the open segstore *)
+
+Definition route (st : stores) (k : name) (dflt : N * name) : N * name :=
+  match find (fun e => name_eqb (fst e) k) st with
+  | Some e => snd e
+  | None => dflt
+  end.
+Definition has_key (st : stores) (k : name) : bool := existsb (fun e => name_eqb (fst e) k) st.
+
+Section Routed.
+  Variable keyf : N -> name -> name.     (* CreateStreamId *)
+
+  Definition rstep_with (rs : state * stores) (o : op) : (state * stores) * out :=
+    let '(s, st) := rs in
+    match o with
+    | Ingest X n ids =>
+      match ids with
+      | [] => ((s, st), ONone)
+      | _ =>
+        let t := resolve s X n in
+        let s1 := add_tab s X t in              (* AddAndGetRealIndexName: the table name is registered for (X, t) *)
+        let k := keyf X t in
+        let tgt := route st k (X, t) in          (* getOrCreateSegStore(streamid, ...) *)
+        let st' := if has_key st k then st else st ++ [(k, (X, t))] in
+        ((mkSt (ftabs s1) (mtabs s1) (adirs s1) (afile s1) (amem s1) (akeys s1)
+               (evs s1 ++ map (fun i => mkEv (fst tgt) (snd tgt) false i (segno s1)) ids) (ghost s1) (segno s1),
+          st'), ONone)
+      end
+    | Delete X expr =>
+      (* DeleteVirtualTableSegStore(name) drops the open segstores of every deleted table name *)
+      let names := if name_eqb expr n_traces then []
+                   else filter (has_tab (ftabs s) X) (expand s X true expr) in
+      let '(s', x) := step s o in
+      ((s', filter (fun e => negb (mem (snd (snd e)) names)) st), x)
+    | Restart => let '(s', x) := step s o in ((s', []), x)     (* ForcedFlushToSegfile empties allSegStores *)
+    | _ => let '(s', x) := step s o in ((s', st), x)
+    end.
+
+  Fixpoint routs_with (rs : state * stores) (ops : list op) : list out :=
+    match ops with
+    | [] => []
+    | o :: r => let '(rs', x) := rstep_with rs o in x :: routs_with rs' r
+    end.
+  Definition rrun_with (ops : list op) : state * stores :=
+    fold_left (fun rs o => fst (rstep_with rs o)) ops (init, []).
+End Routed.
+
+(* the code *)
+Definition rstep := rstep_with stream_key.
+Definition routs_from := routs_with stream_key.
+Definition rrun := rrun_with stream_key.
